@@ -27,7 +27,7 @@ def main():
             print(f"{t} [{en.case_label}] paths={len(en.paths)} obligations={len(obs)} gen+solve={time.time()-t0:.2f}s")
             for ob in obs:
                 flag = ob.status
-                print(f"   {flag:10s} {ob.time:6.2f}s {ob.backend:8s} {ob.name}")
+                print(f"   {flag:10s} {ob.time:6.2f}s {ob.backend:8s} {ob.name} {ob.info if ob.info else ''}")
                 if flag=='refuted':
                     m = smt.get_model(ob)
                     print("      model:", str(m)[:600])
